@@ -307,7 +307,12 @@ func (p DHCP4) AppendOptions(options DHCP4Options, order []byte) int {
 		byte(DHCP4OptionStaticRoute),
 		byte(DHCP4OptionRouter),
 	}
-	order = append(order, optionsReplyParametersList...)
+	// the subnet mask must be encoded before the router option whatever order the client asked for (RFC 2132 3.3);
+	// build a new slice so that the caller's order slice (often a slice of the request packet) is not extended in place.
+	full := make([]byte, 0, len(order)+1+len(optionsReplyParametersList))
+	full = append(full, byte(DHCP4OptionSubnetMask))
+	full = append(full, order...)
+	order = append(full, optionsReplyParametersList...)
 
 	// first copy parameters in order
 	for _, code := range order {
